@@ -38,5 +38,20 @@ pub fn parse_usize(s: &str) -> (r: core::result::Result<usize, ParseIntError>) {
 pub fn str_trim<'a>(s: &'a str) -> (r: &'a str) { unimplemented!() }
 #[verifier::external_body]
 pub fn starts_with_char(s: &str, c: char) -> (r: bool) { unimplemented!() }
+pub uninterp spec fn spec_starts_with(s: Seq<char>, p: Seq<char>) -> bool;
 #[verifier::external_body]
-pub fn starts_with_str(s: &str, p: &str) -> (r: bool) { unimplemented!() }
+pub fn starts_with_str(s: &str, p: &str) -> (r: bool) ensures r == spec_starts_with(s@, p@) { unimplemented!() }
+/// R18: `s.split("..").collect::<Vec<_>>()` — ASSUMED: a non-empty vector of pieces (str::split always yields at least one item)
+#[verifier::external_body]
+pub fn split_str_collect<'a>(s: &'a str, sep: &str) -> (r: Vec<&'a str>)
+    ensures r.len() >= 1,
+{ unimplemented!() }
+/// R18: `usize::from_str_radix(String::from(x).trim_start_matches("0x"), 16)` — nothing is assumed about the value
+#[verifier::external_body]
+pub fn parse_hex_usize(s: &str) -> (r: core::result::Result<usize, ParseIntError>) { unimplemented!() }
+/// R18: the loop `for &cate in cols[1..].iter().take_while(|&&col| !col.starts_with('#')) { categories.push(cate.to_string()) }`
+/// (closure-driven iterator adaptor) — nothing is assumed about what is pushed
+#[verifier::external_body]
+pub fn push_until_comment(categories: &mut Vec<String>, cols: &Vec<&str>)
+    requires cols.len() >= 1,
+{ unimplemented!() }
